@@ -218,30 +218,50 @@ def long_string(g, target, rng, cap=4000):
                 mn[h] = c
                 best[h] = b
                 changed = True
-    form = [g.S]
-    for _ in range(cap):
-        nt_pos = [i for i, y in enumerate(form) if y not in g.V]
-        size = sum(1 if y in g.V else mn[y] for y in form)
-        if size >= target or not nt_pos:
+    if g.S not in mn or mn[g.S] == INF:
+        return None
+    # nonterminals from which a dependency cycle is reachable (only those can yield arbitrarily long strings)
+    dep = {X: {y for b in bs for y in b if y not in g.V} for X, bs in by.items()}
+    reach_nt = {X: set(ys) for X, ys in dep.items()}
+    changed = True
+    while changed:
+        changed = False
+        for X in reach_nt:
+            new = set()
+            for y in reach_nt[X]:
+                new |= reach_nt.get(y, set())
+            if not new <= reach_nt[X]:
+                reach_nt[X] |= new
+                changed = True
+    cyclic = {X for X in reach_nt if X in reach_nt[X]}
+    grow_nt = {X for X in reach_nt if X in cyclic or reach_nt[X] & cyclic}
+    best_out = None
+    for _attempt in range(8):
+        form = [g.S]
+        for _ in range(cap):
+            nt_pos = [i for i, y in enumerate(form) if y not in g.V]
+            size = sum(1 if y in g.V else mn[y] for y in form)
+            if size >= target or not nt_pos:
+                break
+            alive = [i for i in nt_pos if form[i] in grow_nt]
+            i = rng.choice(alive or nt_pos)
+            cands = by[form[i]]
+            rec = [b for b in cands if any(y in grow_nt for y in b)]                 # keeps the derivation alive
+            form[i:i + 1] = list(rng.choice(rec or cands))
+        # minimal completion
+        out = []
+        stack = list(reversed(form))
+        while stack and len(out) <= 20 * cap:
+            y = stack.pop()
+            if y in g.V:
+                out.append(y)
+            else:
+                stack.extend(reversed(best[y]))
+        if not stack and (best_out is None or len(out) > len(best_out)):
+            best_out = out
+        if best_out is not None and len(best_out) >= target:
             break
-        i = rng.choice(nt_pos)
-        cands = by[form[i]]
-        grow = [b for b in cands if sum(1 if y in g.V else mn[y] for y in b) > mn[form[i]] or
-                any(y not in g.V for y in b)]
-        b = rng.choice(grow or cands)
-        form[i:i + 1] = list(b)
-    # minimal completion
-    out = []
-    stack = list(reversed(form))
-    while stack:
-        y = stack.pop()
-        if y in g.V:
-            out.append(y)
-        else:
-            stack.extend(reversed(best[y]))
-        if len(out) > 20 * cap:
-            return None
-    return tuple(out) if len(out) >= target else None
+    return tuple(best_out) if best_out is not None and len(best_out) >= target else None
 
 
 def selfcheck():
